@@ -23,7 +23,7 @@ use surf_n_term::view::{
 };
 use surf_n_term::{
     Cell, Face, FaceAttrs, Glyph, Image, KeyChord, Position, RGBA, Shape, Size, Surface,
-    SurfaceMut, SurfaceOwned,
+    SurfaceMut, SurfaceOwned, TerminalSize,
 };
 
 pub struct C19;
@@ -398,6 +398,26 @@ pub enum ImgView {
     Strided { start: usize, row_stride: usize, col_stride: usize },
 }
 
+/// A terminal (what `Terminal::size` reports) whose `ViewContext::new` context a deserialised
+/// view is laid out and rendered under, in addition to the standing 24x80-cell / 20x10-pixel
+/// one.  `pixels == (0, 0)`: the terminal does not know its size in pixels.
+#[derive(Clone, Copy, Debug, PartialEq, Eq, Serialize, Deserialize)]
+pub struct TermCfg {
+    /// (height, width) in cells
+    pub cells: (usize, usize),
+    /// (height, width) in pixels; need not be a multiple of `cells`
+    pub pixels: (usize, usize),
+}
+
+impl TermCfg {
+    fn size(&self) -> TerminalSize {
+        TerminalSize {
+            cells: Size::new(self.cells.0, self.cells.1),
+            pixels: Size::new(self.pixels.0, self.pixels.1),
+        }
+    }
+}
+
 #[derive(Clone, Debug, Serialize, Deserialize)]
 pub enum Case {
     /// `underline_first` (0 = none): an underline style combined into the set BEFORE `underline`
@@ -416,8 +436,10 @@ pub enum Case {
         size_as_map: bool,
         junk: bool,
     },
-    Doc { target: Target, origin: Origin, chain: Vec<Wrap>, body: J, ext: u32, odd: u32 },
-    Bytes { target: Target, bytes: Vec<u8>, mutated: bool },
+    /// `term`: a further terminal configuration for the layout + render part (None = only the
+    /// standing one)
+    Doc { target: Target, origin: Origin, chain: Vec<Wrap>, body: J, ext: u32, odd: u32, #[serde(default)] term: Option<TermCfg> },
+    Bytes { target: Target, bytes: Vec<u8>, mutated: bool, #[serde(default)] term: Option<TermCfg> },
 }
 
 fn rgba_of(px: u32) -> RGBA {
@@ -906,7 +928,7 @@ fn deser_bytes(target: Target, bytes: &[u8], ctx: &dyn Fn() -> String) -> Result
         Target::Glyph => serde_json::from_slice::<Glyph>(bytes).map(Loaded::Glyph).map_err(|e| e.to_string()),
         Target::Text => serde_json::from_slice::<Text>(bytes).map(Loaded::Text).map_err(|e| e.to_string()),
         Target::View => {
-            let seed = ViewDeserializer::new(None, Some(std::sync::Arc::new(crate::mockterm::FlipCache::new())));
+            let seed = ViewDeserializer::new(None, Some(std::sync::Arc::new(crate::mockterm::FlipCache::with_chains())));
             let mut de = serde_json::Deserializer::from_slice(bytes);
             (&seed).deserialize(&mut de).map(Loaded::View).map_err(|e| e.to_string())
         }
@@ -923,7 +945,7 @@ fn deser_value(target: Target, value: Value, ctx: &dyn Fn() -> String) -> Result
         Target::Glyph => serde_json::from_value::<Glyph>(value).map(Loaded::Glyph).map_err(|e| e.to_string()),
         Target::Text => serde_json::from_value::<Text>(value).map(Loaded::Text).map_err(|e| e.to_string()),
         Target::View => {
-            let seed = ViewDeserializer::new(None, Some(std::sync::Arc::new(crate::mockterm::FlipCache::new())));
+            let seed = ViewDeserializer::new(None, Some(std::sync::Arc::new(crate::mockterm::FlipCache::with_chains())));
             (&seed).deserialize(value).map(Loaded::View).map_err(|e| e.to_string())
         }
     })?;
@@ -941,28 +963,62 @@ fn sentinel() -> Cell {
     )
 }
 
-/// lay the view out under 3 constraints x 2 glyph settings and render it into a window of
-/// a sentinel canvas; returns Ok(()) or the first violation
-fn exercise_view(view: &dyn View, ctx: &dyn Fn() -> String) -> Result<(), Fail> {
+/// the terminal every deserialised view is laid out under: 24x80 cells of 20x10 pixels
+const STANDING_TERM: TermCfg = TermCfg { cells: (24, 80), pixels: (24 * 20, 80 * 10) };
+
+/// class of a terminal configuration by the cell size `ViewContext::new` derives from it
+fn term_class(term: &TermCfg) -> &'static str {
+    let ppc = term.size().pixels_per_cell();
+    if term.pixels == (0, 0) {
+        "no-pixel-size"
+    } else if ppc.height == 0 || ppc.width == 0 {
+        "zero-cell-extent"
+    } else {
+        "other-cell-size"
+    }
+}
+
+/// lay the view out under 3 constraints x 2 glyph settings, in the context of the standing
+/// terminal and of `extra` (when given), and render it into a window of a sentinel canvas;
+/// returns Ok(()) or the first violation
+fn exercise_view(view: &dyn View, extra: Option<TermCfg>, ctx: &dyn Fn() -> String) -> Result<(), Fail> {
     let constraints = [
         ("loose-0x0", BoxConstraint::loose(Size::new(0, 0))),
         ("loose-10x20", BoxConstraint::loose(Size::new(10, 20))),
         ("tight-3x7", BoxConstraint::tight(Size::new(3, 7))),
     ];
-    for glyphs in [false, true] {
-        let term = RecTerm::new(Size::new(24, 80), Size::new(20, 10), glyphs);
+    // (terminal, stage names): failures under a further terminal get their own signatures
+    let mut terms: Vec<(TermCfg, String, String)> =
+        vec![(STANDING_TERM, "view-layout".to_string(), "view-render".to_string())];
+    if let Some(t) = extra {
+        let class = term_class(&t);
+        terms.push((t, format!("view-layout/{class}"), format!("view-render/{class}")));
+    }
+    for (tcfg, st_layout, st_render) in &terms {
+      for glyphs in [false, true] {
+        let term = RecTerm::with_size(tcfg.size(), glyphs);
         let vctx: ViewContext = term.ctx();
         for (ct_name, ct) in constraints {
-            let ctx2 = || format!("{} [constraint {ct_name}, glyphs={glyphs}]", ctx());
+            let ctx2 = || {
+                format!(
+                    "{} [constraint {ct_name}, glyphs={glyphs}, ViewContext::new of a terminal reporting {}x{} cells and {}x{} pixels => {:?} per cell]",
+                    ctx(),
+                    tcfg.cells.0,
+                    tcfg.cells.1,
+                    tcfg.pixels.0,
+                    tcfg.pixels.1,
+                    vctx.pixels_per_cell()
+                )
+            };
             let mut store = ViewLayoutStore::new();
-            let laid = stage("view-layout", &ctx2, || {
+            let laid = stage(st_layout, &ctx2, || {
                 view.layout_new(&vctx, ct, &mut store).map(|l| l.id())
             })?;
             let id = match laid {
                 Ok(id) => id,
                 Err(e) => {
                     return Err(Fail::new(
-                        "view-layout/error",
+                        format!("{st_layout}/error"),
                         format!("{}: deserialised view cannot be laid out: {e}", ctx2()),
                     ));
                 }
@@ -970,13 +1026,13 @@ fn exercise_view(view: &dyn View, ctx: &dyn Fn() -> String) -> Result<(), Fail> 
             let sent = sentinel();
             let mut canvas = SurfaceOwned::new_with(CANVAS, |_| sent.clone());
             let win = ct.max();
-            let rendered = stage("view-render", &ctx2, || {
+            let rendered = stage(st_render, &ctx2, || {
                 let surf = canvas.view_mut(WIN_ROW..WIN_ROW + win.height, WIN_COL..WIN_COL + win.width);
                 view.render(&vctx, surf, ViewLayout::from_id(&store, id))
             })?;
             if let Err(e) = rendered {
                 return Err(Fail::new(
-                    "view-render/error",
+                    format!("{st_render}/error"),
                     format!("{}: deserialised view cannot be rendered: {e}", ctx2()),
                 ));
             }
@@ -990,7 +1046,7 @@ fn exercise_view(view: &dyn View, ctx: &dyn Fn() -> String) -> Result<(), Fail> 
                         let cell = canvas.get(Position::new(row, col));
                         ensure!(
                             cell == Some(&sent),
-                            "view-render/outside-window",
+                            &format!("{st_render}/outside-window"),
                             "{}: cell ({row},{col}) outside the {}x{} window at ({WIN_ROW},{WIN_COL}) was changed to {:?}",
                             ctx2(),
                             win.height,
@@ -1001,8 +1057,21 @@ fn exercise_view(view: &dyn View, ctx: &dyn Fn() -> String) -> Result<(), Fail> 
                 }
             }
         }
+      }
     }
     Ok(())
+}
+
+/// labels of a case whose document deserialised and was exercised under a further terminal
+fn term_labels(mut pass: Pass, term: Option<TermCfg>, ok: bool, target: Target, mentions_image: bool, mentions_glyph: bool) -> Pass {
+    if let (Some(t), true) = (term, ok) {
+        let class = term_class(&t);
+        pass = pass
+            .label(format!("term/{class}/ok+rendered"))
+            .label_if(target == Target::Image || mentions_image, &format!("term/{class}/ok+rendered/with-image"))
+            .label_if(target == Target::Glyph || mentions_glyph, &format!("term/{class}/ok+rendered/with-glyph"));
+    }
+    pass
 }
 
 fn num_f64(j: &J) -> Option<f64> {
@@ -1291,7 +1360,7 @@ fn probe_error_growth(chain: &[Wrap], body: &J) -> Result<Option<&'static str>, 
     }
 }
 
-fn check_doc(target: Target, origin: Origin, chain: &[Wrap], body: &J, ext: u32, odd: u32) -> Outcome {
+fn check_doc(target: Target, origin: Origin, chain: &[Wrap], body: &J, ext: u32, odd: u32, term: Option<TermCfg>) -> Outcome {
     worker_limits();
     let doc = build_doc(chain, body);
     let text = doc.render();
@@ -1332,8 +1401,9 @@ fn check_doc(target: Target, origin: Origin, chain: &[Wrap], body: &J, ext: u32,
     let ok = loaded.is_some();
     if let Some(l) = loaded {
         let ctx = || format!("{t} document {}", short(&text));
-        exercise_view(l.view(), &ctx)?;
+        exercise_view(l.view(), term, &ctx)?;
     }
+    pass = term_labels(pass, term, ok, target, text.contains("\"image\""), text.contains("\"glyph\""));
     pass = pass
         .label(format!("{o}/{t}/{}", if ok { "ok+rendered" } else { "err" }))
         .label_if(via_value.is_none(), "doc/not-a-json-value(text path only)")
@@ -1355,7 +1425,7 @@ fn check_doc(target: Target, origin: Origin, chain: &[Wrap], body: &J, ext: u32,
     Ok(pass)
 }
 
-fn check_bytes(target: Target, bytes: &[u8], mutated: bool) -> Outcome {
+fn check_bytes(target: Target, bytes: &[u8], mutated: bool, term: Option<TermCfg>) -> Outcome {
     worker_limits();
     let t = target.name();
     if !no_screen() {
@@ -1371,11 +1441,13 @@ fn check_bytes(target: Target, bytes: &[u8], mutated: bool) -> Outcome {
     let r = deser_bytes(target, bytes, &ctx)?;
     let ok = r.is_ok();
     if let Ok(l) = &r {
-        exercise_view(l.view(), &ctx)?;
+        exercise_view(l.view(), term, &ctx)?;
     }
     let kind = if mutated { "mutated-doc" } else { "arbitrary" };
-    Ok(Pass::new(mutated || ok)
-        .label(format!("bytes/{t}/{kind}/{}", if ok { "ok+rendered" } else { "err" })))
+    let has = |needle: &[u8]| bytes.windows(needle.len()).any(|w| w == needle);
+    let pass = Pass::new(mutated || ok)
+        .label(format!("bytes/{t}/{kind}/{}", if ok { "ok+rendered" } else { "err" }));
+    Ok(term_labels(pass, term, ok, target, has(b"\"image\""), has(b"\"glyph\"")))
 }
 
 pub fn check_case(case: &Case) -> Outcome {
@@ -1387,10 +1459,10 @@ pub fn check_case(case: &Case) -> Outcome {
         Case::ImageJson { height, width, channels, bytes, order, size_as_map, junk } => {
             check_image_json(*height, *width, *channels, bytes, *order, *size_as_map, *junk)
         }
-        Case::Doc { target, origin, chain, body, ext, odd } => {
-            check_doc(*target, *origin, chain, body, *ext, *odd)
+        Case::Doc { target, origin, chain, body, ext, odd, term } => {
+            check_doc(*target, *origin, chain, body, *ext, *odd, *term)
         }
-        Case::Bytes { target, bytes, mutated } => check_bytes(*target, bytes, *mutated),
+        Case::Bytes { target, bytes, mutated, term } => check_bytes(*target, bytes, *mutated, *term),
     }
 }
 
@@ -2468,6 +2540,7 @@ fn doc_case() -> BoxedStrategy<Case> {
         body: v.j,
         ext: v.ext,
         odd: v.odd,
+        term: None,
     });
     let glyph = prop_oneof![1 => glyph_obj(None, HOSTILE), 2 => glyph_obj(None, MILD), 1 => glyph_obj(None, STRESS)].prop_map(|v| Case::Doc {
         target: Target::Glyph,
@@ -2476,6 +2549,7 @@ fn doc_case() -> BoxedStrategy<Case> {
         body: v.j,
         ext: v.ext,
         odd: v.odd,
+        term: None,
     });
     let text = (
         chain_of(text_wrap),
@@ -2489,6 +2563,7 @@ fn doc_case() -> BoxedStrategy<Case> {
             body: v.j,
             ext: v.ext + e,
             odd: v.odd + o,
+            term: None,
         }
     });
     // view tree: view layers, optionally ending in a text view with text layers
@@ -2522,7 +2597,7 @@ fn doc_case() -> BoxedStrategy<Case> {
     let view = (chain_of(view_wrap), prop_oneof![4 => view_tail, 1 => text_tail]).prop_map(
         |((mut chain, e, o), (tail, body, e2, o2))| {
             chain.extend(tail);
-            Case::Doc { target: Target::View, origin: Origin::Grammar, chain, body, ext: e + e2, odd: o + o2 }
+            Case::Doc { target: Target::View, origin: Origin::Grammar, chain, body, ext: e + e2, odd: o + o2, term: None }
         },
     );
     prop_oneof![3 => image, 3 => glyph, 3 => text, 6 => view].boxed()
@@ -2579,7 +2654,7 @@ fn arbitrary_case() -> BoxedStrategy<Case> {
                     entries.insert(0, ("type".to_string(), J::s(t)));
                 }
             }
-            Case::Doc { target, origin: Origin::Arbitrary, chain: vec![], body, ext: 0, odd: 0 }
+            Case::Doc { target, origin: Origin::Arbitrary, chain: vec![], body, ext: 0, odd: 0, term: None }
         })
         .boxed()
 }
@@ -2587,7 +2662,7 @@ fn arbitrary_case() -> BoxedStrategy<Case> {
 fn bytes_case() -> BoxedStrategy<Case> {
     let target = || select(vec![Target::Image, Target::Glyph, Target::Text, Target::View]);
     let raw = (target(), pvec(any::<u8>(), 0..64))
-        .prop_map(|(target, bytes)| Case::Bytes { target, bytes, mutated: false });
+        .prop_map(|(target, bytes)| Case::Bytes { target, bytes, mutated: false, term: None });
     let soup_tokens: Vec<&'static str> = vec![
         "{", "}", "[", "]", ":", ",", "\"", "\\", "\\u", "d800", "0", "1", "-", "e", "E", ".", "9", "true", "false",
         "null", " ", "\"type\"", "\"size\"", "\"data\"", "\"channels\"", "\"text\"", "\"flex\"", "\"image\"",
@@ -2597,6 +2672,7 @@ fn bytes_case() -> BoxedStrategy<Case> {
         target,
         bytes: toks.concat().into_bytes(),
         mutated: false,
+        term: None,
     });
     let mutated = (doc_case(), 0u8..6, any::<Index>(), any::<u8>(), 1usize..6).prop_map(|(case, kind, at, byte, len)| {
         let Case::Doc { target, chain, body, .. } = case else { unreachable!() };
@@ -2623,9 +2699,54 @@ fn bytes_case() -> BoxedStrategy<Case> {
                 _ => bytes.extend_from_slice(b" x"),
             }
         }
-        Case::Bytes { target, bytes, mutated: true }
+        Case::Bytes { target, bytes, mutated: true, term: None }
     });
     prop_oneof![2 => raw, 2 => soup, 5 => mutated].boxed()
+}
+
+// ---- terminal configurations for the layout + render part
+
+/// What `Terminal::size` may report (both fields of `TerminalSize` are public, `ViewContext::new`
+/// takes any of them): most often a terminal that does not know its size in pixels (pixels 0x0
+/// => 0x0 pixels per cell), else fewer pixels than cells in one or both directions (integer
+/// division => a zero extent), or a cell size other than the standing one (1x1, odd remainders,
+/// cells larger than every generated picture), on terminals of 24x80, 1x1, 50x200 and 0x0 cells.
+fn term_cfg() -> BoxedStrategy<TermCfg> {
+    let cells = prop_oneof![
+        6 => Just((24usize, 80usize)),
+        1 => Just((1usize, 1usize)),
+        1 => Just((50usize, 200usize)),
+        1 => Just((0usize, 0usize)),
+    ];
+    let ppc = select(vec![(1usize, 1usize), (2, 1), (7, 3), (16, 8), (37, 15), (64, 64)]);
+    (cells, 0u8..10, ppc, 0usize..4, 0usize..4)
+        .prop_map(|(cells, kind, ppc, rem_h, rem_w)| {
+            let pixels = match kind {
+                // no pixel size known
+                0..=4 => (0, 0),
+                // fewer pixels than cells in one direction / in both
+                5 => (cells.0 * ppc.0 + rem_h, cells.1 / 2),
+                6 => (cells.0 / 2, cells.1 * ppc.1 + rem_w),
+                7 => (cells.0 / 2, cells.1 / 2),
+                // whole cells, possibly with a remainder
+                _ => (cells.0 * ppc.0 + rem_h.min(cells.0.saturating_sub(1)), cells.1 * ppc.1 + rem_w.min(cells.1.saturating_sub(1))),
+            };
+            TermCfg { cells, pixels }
+        })
+        .boxed()
+}
+
+/// half of the document cases are exercised under a further terminal as well
+fn under_term(cases: BoxedStrategy<Case>) -> BoxedStrategy<Case> {
+    (cases, proptest::option::weighted(0.5, term_cfg()))
+        .prop_map(|(mut case, t)| {
+            match &mut case {
+                Case::Doc { term, .. } | Case::Bytes { term, .. } => *term = t,
+                _ => {}
+            }
+            case
+        })
+        .boxed()
 }
 
 // ---------------------------------------------------------------------------------------
@@ -2656,9 +2777,9 @@ impl Property for C19 {
             2 => chord_case(),
             2 => image_case(),
             2 => image_json_case(),
-            12 => doc_case(),
-            3 => arbitrary_case(),
-            3 => bytes_case(),
+            12 => under_term(doc_case()),
+            3 => under_term(arbitrary_case()),
+            3 => under_term(bytes_case()),
         ]
         .boxed()
     }
@@ -2682,7 +2803,9 @@ impl Property for C19 {
          length not a multiple of 4; channels 0/2/5/255/-1/1e10; huge margins, container sizes, offsets; flex factors negative/zero/huge/denormal/strings), wrapped in 0..120 nesting layers \
          (flex/container/tag/trace-layout, text arrays/objects); arbitrary JSON values biased to the deserialisers' key names; raw bytes, JSON token soup and byte-mutated grammar documents. \
          Each document goes through from_slice and (when it is a JSON value) through serde_json::Value; everything that deserialises is laid out under loose 0x0, loose 10x20, tight 3x7 with and \
-         without glyph support and rendered into a window of a sentinel canvas. \
+         without glyph support and rendered into a window of a sentinel canvas, in the ViewContext::new context of a 24x80-cell terminal with 20x10 pixels per cell and, for half of the \
+         documents, of one further generated terminal as well: no pixel size known (pixels 0x0 => 0x0 pixels per cell; half of the further terminals), fewer pixels than cells in one or both \
+         directions (a zero cell extent), or another cell size (1x1, 2x1, 7x3, 16x8, 37x15, 64x64, with pixel remainders), on 24x80 / 1x1 / 50x200 / 0x0 cells. \
          non-trivial = (a) alpha != 255 or >= 2 attributes or non-straight underline; height != width; >= 2 keys or a modifier; >= 2 pixels; \
          (b) grammar document with >= 1 extreme/missing/repeated/wrong-typed field or nesting >= 32; arbitrary value that is an object or deserialises; mutated grammar document or bytes that deserialise"
             .into()
@@ -2694,6 +2817,7 @@ impl Property for C19 {
             "the harness is built with overflow checks: an arithmetic overflow that would wrap silently in a plain release build is observed as a panic".into(),
             "'laid out and rendered' = View::layout then View::render into a TerminalSurface (a window of a 14x26 sentinel canvas); rasterising glyph cells (TerminalRenderer) is not part of it".into(),
             "an Err returned by layout/render of a deserialised view counts as 'cannot be laid out/rendered'".into(),
+            "'can be laid out and rendered' names no context, so it is read over every context the public constructor ViewContext::new yields for a value of TerminalSize (both fields are public): in particular the terminal that reports no pixel size (pixels 0x0; src/unix.rs handles `pixels.is_empty()`, TerminalSize::pixels_per_cell then returns 0x0). Only panics, errors and writes outside the window are judged there, not what is drawn; failures under a further terminal carry the terminal class in the signature (view-layout/no-pixel-size/..., .../zero-cell-extent/..., .../other-cell-size/...)".into(),
             "a case that does not finish within the per-case time limit twice in a row (second try with twice the time in a fresh worker) is reported as a violation (`terminate/case-did-not-finish`): the statement says deserialisation returns a value or an error".into(),
             "key chords with mouse keys, NUMLOCK or characters outside the printable key syntax cannot be written in the textual syntax and are outside the property".into(),
             "repeated keys exist only on the text path (serde_json::Value keeps the last one)".into(),
